@@ -580,6 +580,13 @@ def _install_random_seam():
         return _CURRENT_SCRIPT[0] if _CURRENT_SCRIPT[0] is not None else _random_mod.Random(*a, **k)
     for n in names:
         setattr(T, n, factory)
+    import types
+    for n, v in list(vars(T).items()):   # the module imported as a whole (`import random`) instead of the class
+        if v is _random_mod:
+            shim = types.SimpleNamespace(**{k: getattr(_random_mod, k) for k in dir(_random_mod) if not k.startswith('__')})
+            shim.Random = factory
+            setattr(T, n, shim)
+            names.append(n)
     _RANDOM_SEAM.append(names)
     return [] if names else ['tape_recorder: no module-level name bound to random.Random']
 
